@@ -5,4 +5,11 @@ package main
 func checkParsers(w *World, r *Report)             {}
 func checkHandleConnBadFrame(w *World, r *Report) {}
 
-func checkHandleConnMarker(w *World, r *Report, rule string) {}
+func checkHandleConnMarker(w *World, r *Report, rule string) {
+	ci := analyseHandleConn(w)
+	if ci.err != nil {
+		r.Unknown(rule, "recorder connection handler", "-", ci.err.Error())
+		return
+	}
+	checkHandleConnMarkerCI(w, r, ci, rule)
+}
